@@ -39,6 +39,7 @@ SPEC = {
     'writes that would replace a sub-dict by a leaf (put_variable onto a submodule name) are outside the model (error `unsupported`) and not generated',
     'observe_noninterference is stated for the Linen styles (Module.sow does not exist in the functional core) and for programs whose observation collections are used by nothing else (theorem obs_safe_needed shows the guard is needed)',
     'RNG values are not modelled (initialisers are constants); key reuse/position is C09',
+    'Scope.temporary invalidates the ROOT scope object only (code as written, theorem leaked_child_still_writes): a leaked child Scope stays usable and can update the temporary tree — which is also the dict apply returned — after the call; what is proved and checked is that the root is dead (leaked_scope_invalid) and that no leaked scope, valid or not, reaches the caller\'s variables (leaked_scope_cannot_touch_inputs)',
   ],
   'model_partial': [],
 }
@@ -154,6 +155,45 @@ def check_observers(ctx, base):
       ctx.violation('observer-changes-output:sow', f"removing sow/perturb changed the outcome: {full['result'][:2]} vs {er['result'][:2]}", S.public(base))
 
 
+def leak_suite(ctx, drv, conv, cases):
+  """scope objects that leak out of apply: the root is dead, and no leaked scope can reach the caller's variables"""
+  reqs, obs = [], []
+  for sc in cases:
+    which = sc['which']
+    o = S.run_leak(sc, which)
+    if o is None:
+      continue
+    sc = dict(sc, ops=o['ops'])
+    case = dict(S.public(sc), handle=o['handle'])
+    ctx.case(case)
+    ctx.count('leaked_scope', which)
+    if o['inputs_changed']:
+      ctx.violation('leaked-scope-mutates-input', f"operations {o['ops']} on a scope object leaked from apply changed the variables passed to apply", case)
+      continue
+    if which == 'root':
+      if not o['handle']['invalid']:
+        ctx.violation('leaked-root-usable', 'the root scope is not invalidated when apply returns', case)
+        continue
+      bad = [(op, res) for op, res in zip(o['ops'], o['results']) if op['op'] in ('put', 'push', 'rewound') and res != 'InvalidScopeError']
+      if bad:
+        ctx.violation('leaked-root-usable', f'on the invalidated root scope {bad[0][0]} gave {bad[0][1]} instead of InvalidScopeError', case)
+        continue
+    reqs.append(('leak', S.model_request(sc, conv)[1] + [o['handle'], o['ops']]))
+    obs.append((case, o))
+  outs = drv.run(reqs)
+  for (case, o), m in zip(obs, outs):
+    if m[0] != 'ok':
+      ctx.disagreements_checked += 1
+      ctx.violation('model-mismatch:leak', f'driver error {m[1]}', case, concrete=False)
+      continue
+    want = []
+    for res in m[1]['results']:
+      want.append({'ok'} if res == 'ok' else (S.model_err_names(res, 'core') or {res}))
+    if m[1]['dirty'] or len(want) != len(o['results']) or any(r not in w for r, w in zip(o['results'], want)):
+      ctx.disagreements_checked += 1
+      ctx.violation('model-mismatch:leak', f"leaked-scope operations: implementation {o['results']}, model {m[1]['results']}", case, concrete=False)
+
+
 def run_programs(ctx, drv, conv, progs):
   scs, obs_list = [], []
   for prog in progs:
@@ -202,8 +242,14 @@ def _form(j):
 def run_case(ctx, drv, conv, case):
   """replays one stored scenario (corpus / replay file)"""
   sc = dict(case)
+  if sc.get('leak'):
+    leak_suite(ctx, drv, conv, [sc])
+    return
   if sc.get('kind') == 'shared':
     S.check_shared(ctx, sc, 'C01')
+    return
+  if sc.get('kind') == 'layout':
+    S.check_layout(ctx, sc, 'C01')
     return
   if sc.get('pair') == 'observers':
     check_observers(ctx, sc)
@@ -227,10 +273,25 @@ def run(ctx):
   thorough = ctx.tier == 'thorough'
   for _ in range(30 if not thorough else 300):
     S.check_shared(ctx, S.shared_case(ctx.rng), 'C01')
+  for _ in range(30 if not thorough else 300):
+    S.check_layout(ctx, S.gen_layout(ctx.rng), 'C01')
   # dict-valued writes over a submodule's subtree followed by further updates from the nested scopes
   restore = [S.gen_restore_prog(ctx.rng) for _ in range(50 if not thorough else 600)]
   ctx.count('streams', 'restore', len(restore))
   run_programs(ctx, drv, conv, restore)
+  # leaked scope objects
+  lcases = []
+  for i in range(120 if not thorough else 1500):
+    prog = S.gen_restore_prog(ctx.rng) if i % 3 == 0 else S.gen_prog(ctx.rng, flavour=ctx.rng.choice(['core_ok', 'decl_first', 'mixed']))
+    style = ctx.rng.choice(S.styles_for(prog))
+    R = S.Rendered(prog, style)
+    o0 = S.run_scenario(R, {'kind': 'init', 'prog': prog, 'style': style, 'mutable': True, 'x': 1, 'rngs': True})
+    if o0['peak'] >= S.LIMIT or o0['result'][0] != 'ok' or o0['result'][3]:
+      continue
+    lcases.append({'kind': 'apply', 'prog': prog, 'style': style, 'mutable': S.gen_filter(ctx.rng), 'vars': o0['result'][2],
+                   'x': ctx.rng.randrange(-2, 3), 'rngs': ctx.rng.random() < 0.6, 'which': ctx.rng.choice(['root', 'child', 'child']),
+                   'pick': ctx.rng.randrange(100), 'leak': True, '_rng': ctx.rng})
+  leak_suite(ctx, drv, conv, lcases)
   n = 800 if not thorough else 9000
   done = 0
   sample_src = None
